@@ -97,6 +97,19 @@ Theorem strict_int_const_prefix_refuted :
 Proof. exact strict_int_const_ok. Qed.
 Print Assumptions strict_int_const_prefix_refuted.
 
+(* FloatLinEq over integer AND float variables.  BEFORE the repair (prune_flin_eq_prefix) the bounds of an integer variable were the
+   exact ceiling / floor of the residual computed from float terms that are quantised to the step grid: 3*i + 0.75*x = 1.40625 at
+   step 0.1 (x = 1.875 becomes 1.9) failed at the leaf x = 1.9, i = 0 and at every other leaf: NoSolution.  AFTER the repair the
+   integer variable gets one step of every float term (weighted by its coefficient) plus 8 ulps of the row's magnitude as slack
+   (FloatProps.integer_bound_slack) and the leaf is accepted; the residual it admits, 0.75 * 0.1, lies inside C06's tolerance of
+   the row (5 steps per float term). *)
+Theorem floatlineq_mixed_prefix_refuted :
+  prune_flin_eq_prefix [of_bits 0x4008000000000000; of_bits 0x3fe8000000000000] [1%nat; 0%nat] (of_bits 0x3ff6800000000000) (w_eqmix_store, []) = None /\
+  obs_ctx (prune_flin_eq [of_bits 0x4008000000000000; of_bits 0x3fe8000000000000] [1%nat; 0%nat] (of_bits 0x3ff6800000000000) (w_eqmix_store, []))
+    = obs_ctx (Some (w_eqmix_store, [])).
+Proof. exact floatlineq_mixed_ok. Qed.
+Print Assumptions floatlineq_mixed_prefix_refuted.
+
 (* IntLinLe posted DIRECTLY on a float variable (props level) uses the integer rules: IntLinLe([-1],[x],-3), i.e. the integer
    reading of x > 2, fails x in [0, 2.5].  The runtime API no longer produces this propagator for float variables (repair
    "linear constraints with integer literals over float variables are posted as float linear constraints": x.gt(2) becomes
